@@ -28,11 +28,17 @@ impl<T: Iterator<Item = Token>> TryFrom<&mut Peekable<T>> for ComponentTypeList<
         loop {
             let continues = if iter.next_is_separator_and_eq('}') {
                 false
-            } else if iter.next_is_separator_and_eq('.') {
+            } else if let Ok(extension_marker) = iter.next_if_separator_and_eq('.') {
+                // the position is stored as index of the last root component, thus a marker
+                // before the first component or a second marker cannot be represented
+                if sequence.fields.is_empty() || sequence.extension_after.is_some() {
+                    return Err(Error::invalid_position_for_extension_marker(
+                        extension_marker,
+                    ));
+                }
                 iter.next_separator_eq_or_err('.')?;
                 iter.next_separator_eq_or_err('.')?;
-                let field_len = sequence.fields.len();
-                sequence.extension_after = Some(field_len.saturating_sub(1));
+                sequence.extension_after = Some(sequence.fields.len() - 1);
 
                 match iter.next_or_err()? {
                     token if token.eq_separator(',') => true,
